@@ -12,9 +12,9 @@ namespace Httpcore.H2
 
 structure Slots where
   sem : Nat          -- permits available in `_max_streams_semaphore`
-  held : Nat         -- streams that hold a permit (between acquire and `_response_closed`)
-  maxS : Nat         -- `self._max_streams`
-  want : Nat         -- the value the reader is adjusting `_max_streams` towards (= maxS when idle)
+  held : Nat         -- streams that hold a permit (between the acquire loop and `_response_closed`)
+  maxS : Nat         -- `self._max_streams`: the limit in force, min(server value, local cap)
+  debt : Nat         -- `self._max_streams_debt`: permits (free or in use) beyond a lowered limit, withheld as they come free
   deriving DecidableEq, Repr
 
 /-- the local MAX_CONCURRENT_STREAMS setting (regenerated from `_send_connection_init`) -/
@@ -22,31 +22,31 @@ def localCap : Nat := Gen.h2LocalMaxStreams
 
 /-- after `_send_connection_init`: a semaphore of `localCap` drained to the initial `_max_streams` -/
 def Slots.init : Slots :=
-  { sem := Gen.h2InitialMaxStreams, held := 0, maxS := Gen.h2InitialMaxStreams, want := Gen.h2InitialMaxStreams }
+  { sem := Gen.h2InitialMaxStreams, held := 0, maxS := Gen.h2InitialMaxStreams, debt := 0 }
 
-/-- `_receive_remote_settings_change` for MAX_CONCURRENT_STREAMS = n: releases happen at once;
-acquisitions take what is available and leave the reader waiting for the rest -/
+/-- `_receive_remote_settings_change` for MAX_CONCURRENT_STREAMS = n. Raising the limit first cancels outstanding debt, then
+releases permits. Lowering it never waits: the surplus becomes debt. -/
 def Slots.settings (s : Slots) (n : Nat) : Slots :=
   let new := min n localCap
-  if new = 0 ∨ s.want ≠ s.maxS then s         -- 0 is ignored; a second change cannot start while the reader is blocked
-  else if new ≥ s.maxS then { s with sem := s.sem + (new - s.maxS), maxS := new, want := new }
-  else
-    let k := min s.sem (s.maxS - new)
-    { s with sem := s.sem - k, maxS := s.maxS - k, want := new }
+  if new = 0 ∨ new = s.maxS then s
+  else if new > s.maxS then
+    let up := new - s.maxS
+    let pay := min s.debt up
+    { s with sem := s.sem + (up - pay), debt := s.debt - pay, maxS := new }
+  else { s with debt := s.debt + (s.maxS - new), maxS := new }
 
-/-- a request takes a slot (`await self._max_streams_semaphore.acquire()`): only when a permit is
-free and the reader is not queued for permits ahead of it -/
-def Slots.openStream (s : Slots) : Option Slots :=
-  if s.sem > 0 ∧ s.want = s.maxS then some { s with sem := s.sem - 1, held := s.held + 1 } else none
+/-- the acquire loop of a request (`while True: acquire(); if debt > 0: debt -= 1; continue; break`): permits obtained while
+debt is outstanding are withheld; the request gets a slot (`true`) if a permit is left after that, otherwise it waits -/
+def Slots.openStream (s : Slots) : Slots × Bool :=
+  let k := min s.sem s.debt
+  let s1 : Slots := { s with sem := s.sem - k, debt := s.debt - k }
+  if s1.sem > 0 then ({ s1 with sem := s1.sem - 1, held := s1.held + 1 }, true) else (s1, false)
 
-/-- `_response_closed`: the permit is released; a reader waiting to lower the limit takes it -/
+/-- `_response_closed`: the permit pays off debt if there is any, otherwise it is released -/
 def Slots.closeStream (s : Slots) : Slots :=
   if s.held = 0 then s
-  else if s.want < s.maxS then { s with held := s.held - 1, maxS := s.maxS - 1 }
+  else if s.debt > 0 then { s with held := s.held - 1, debt := s.debt - 1 }
   else { s with held := s.held - 1, sem := s.sem + 1 }
-
-/-- the reader is blocked inside the semaphore (holding the read lock) -/
-def Slots.readerBlocked (s : Slots) : Bool := s.want < s.maxS
 
 inductive SlotOp
   | settings (n : Nat)
@@ -56,8 +56,36 @@ inductive SlotOp
 
 def Slots.step (s : Slots) : SlotOp → Slots
   | .settings n => s.settings n
-  | .open_ => (s.openStream).getD s
+  | .open_ => s.openStream.1
   | .close => s.closeStream
+
+/-! #### the 1.0.7 behaviour (kept for the record of finding F-C12-a): lowering the limit *waits* for the permits -/
+
+structure Slots107 where
+  sem : Nat
+  held : Nat
+  maxS : Nat
+  want : Nat         -- the value the reader is adjusting `_max_streams` towards (= maxS when idle)
+  deriving DecidableEq, Repr
+
+def Slots107.settings (s : Slots107) (n : Nat) : Slots107 :=
+  let new := min n localCap
+  if new = 0 ∨ s.want ≠ s.maxS then s
+  else if new ≥ s.maxS then { s with sem := s.sem + (new - s.maxS), maxS := new, want := new }
+  else
+    let k := min s.sem (s.maxS - new)
+    { s with sem := s.sem - k, maxS := s.maxS - k, want := new }
+
+def Slots107.openStream (s : Slots107) : Option Slots107 :=
+  if s.sem > 0 ∧ s.want = s.maxS then some { s with sem := s.sem - 1, held := s.held + 1 } else none
+
+def Slots107.closeStream (s : Slots107) : Slots107 :=
+  if s.held = 0 then s
+  else if s.want < s.maxS then { s with held := s.held - 1, maxS := s.maxS - 1 }
+  else { s with held := s.held - 1, sem := s.sem + 1 }
+
+/-- the reader is blocked inside the semaphore, holding the read lock -/
+def Slots107.readerBlocked (s : Slots107) : Bool := s.want < s.maxS
 
 /-! ### demultiplexing -/
 
